@@ -154,6 +154,18 @@ def value_sets(tier, seed, pos_i):
         q = rng.randrange(-mag * 100, mag * 100)
         if q % 10:
             vals.append(q / 100)
+    # the binary neighbours of the one-decimal numbers, and what float arithmetic makes of one-decimal operands
+    # (1.1 + 2.2 = 3.3000000000000003): many digits, so rejected -- "judged by decimal digits, not binary form"
+    import math
+    for k in list(range(-400, 401)) + [rng.randrange(-10 ** 7, 10 ** 7) for _ in range(600 if full else 150)]:
+        for y in (math.nextafter(k / 10, math.inf), math.nextafter(k / 10, -math.inf)):
+            if frac_digits(y) > 1:
+                vals.append(y)
+    for _ in range(800 if full else 200):
+        a, b = rng.randrange(-5000, 5000) / 10, rng.randrange(-5000, 5000) / 10
+        for y in (a + b, a - b, a * 3, a / 10 * 10, a * 0.1 * 10):
+            if abs(y) < 1e9:
+                vals.append(y)
     # values that are already exact decimals (what the library itself hands to handlers and callers)
     D = decimal.Decimal
     for _ in range(600 if full else 200):
@@ -165,6 +177,83 @@ def value_sets(tier, seed, pos_i):
             vals.append(D(k) / 1000)
     vals += [D("21.4"), D("0.15"), D("2.675"), D("16.05"), D("0.1"), D("-0.05"), D("1E+2"), D("3")]
     return vals
+
+
+ENDPOINT_FIRST = r"""
+import json, sys
+sys.path.insert(0, sys.argv[1])
+from ocpp.routing import on
+from ocpp.v16 import ChargePoint, call_result
+from ocpp.messages import Call, CallResult, _validate_payload
+from ocpp.exceptions import OCPPError
+
+
+class Conn:
+    async def send(self, m):
+        pass
+
+    async def recv(self):
+        raise ConnectionError()
+
+
+class CS(ChargePoint):
+    @on("SetChargingProfile")
+    def a(self, **kw):
+        return call_result.SetChargingProfile(status="Accepted")
+
+    @on("RemoteStartTransaction")
+    def b(self, **kw):
+        return call_result.RemoteStartTransaction(status="Accepted")
+
+    @on("GetCompositeSchedule")
+    def c(self, **kw):
+        return call_result.GetCompositeSchedule(status="Accepted")
+
+
+cp = CS("cs", Conn())          # an endpoint with handlers for the three messages exists BEFORE anything is validated
+
+
+def v(mtype, action, payload):
+    msg = Call("i", action, payload) if mtype == "Call" else CallResult("i", payload, action)
+    try:
+        _validate_payload(msg, "1.6")
+        return "accept"
+    except OCPPError as e:
+        return "reject:" + type(e).__name__
+    except Exception as e:
+        return "crash:" + type(e).__name__
+print(json.dumps([v(*x) for x in json.loads(sys.argv[2])]))
+"""
+
+
+def endpoint_first(rep):
+    """the same judgement in a FRESH interpreter in which an endpoint with handlers for the three messages is
+    constructed before the first validation (whatever an endpoint prepares at construction must not decide how
+    numbers are judged later)"""
+    import os
+    import subprocess
+    vals = [21.4, 0.5, 16, 0.1, 21.45, 4.11, 99999.9]
+    reqs, want = [], []
+    for (mtype, action, path) in POSITIONS:
+        base = base_payload(mtype, action)
+        for x in vals:
+            reqs.append([mtype, action, set_at(base, path, x)])
+            want.append("accept" if frac_digits(x) <= 1 else "reject:FormatViolationError")
+    pr = subprocess.run([C.PY, "-c", ENDPOINT_FIRST, C.REPO, json.dumps(reqs)], capture_output=True, text=True, timeout=120,
+                        env=dict(os.environ, PYTHONHASHSEED="0", PYTHONPATH=C.REPO))
+    try:
+        got = json.loads(pr.stdout.strip().splitlines()[-1])
+    except (ValueError, IndexError):
+        got = ["no output: " + pr.stderr[-300:]] * len(want)
+    for (r, g, w) in zip(reqs, got, want):
+        rep.count("endpoint-first:%s:%s:%s" % (r[0], r[1], json.dumps(r[2])[-60:]))
+        if g != w:
+            x = None
+            rep.violation("C14:endpoint-first:%s:%s:%s" % (r[0], r[1], w),
+                          "with an endpoint (handlers for the three messages) constructed before the first validation, 1.6 %s %s "
+                          "is judged %s, expected %s" % (r[0], r[1], g, w),
+                          {"kind": "endpoint-first", "mtype": r[0], "action": r[1], "payload": r[2], "verdict": g, "expected": w})
+    rep.coverage["endpoint_first_evaluations"] = len(reqs)
 
 
 def body_factory(tier, seed):
@@ -207,6 +296,7 @@ def body_factory(tier, seed):
                                   {"kind": "tenth-class-path", "mtype": mtype, "action": action, "path": list(path), "value": x,
                                    "implementation": v, "wire_same_digits": wire_ok})
         rep.coverage["class_path_evaluations"] = n_cls
+        endpoint_first(rep)
         total = sum(per.values()) + n_cls
         rep.coverage["evaluations"] += total
         rep.coverage["sweep_per_position"] = {"/".join([POSITIONS[i][1]] + [str(x) for x in POSITIONS[i][2]]): per[i] for i in per}
@@ -241,6 +331,15 @@ def run(rep, tier, seed):
 
 def replay(d):
     mtype, action, path, x = d["mtype"], d["action"], tuple(d["path"]), d["value"]
+    if d.get("kind") == "endpoint-first":
+        import os
+        import subprocess
+        pr = subprocess.run([C.PY, "-c", ENDPOINT_FIRST, C.REPO, json.dumps([[d["mtype"], d["action"], d["payload"]]])],
+                            capture_output=True, text=True, timeout=120, env=dict(os.environ, PYTHONHASHSEED="0", PYTHONPATH=C.REPO))
+        got = json.loads(pr.stdout.strip().splitlines()[-1])[0] if pr.stdout.strip() else pr.stderr[-200:]
+        print("verdict with an endpoint constructed first:", got, "expected:", d["expected"])
+        print("HOLDS" if got == d["expected"] else "FAILS")
+        return 0 if got == d["expected"] else 1
     if d.get("kind") == "tenth-class-path":
         v, wire_ok = judge_class_path(mtype, action, path, base_payload(mtype, action), x)
         fd = frac_digits(x)
